@@ -147,7 +147,7 @@ def tmpl_parts(t):
                "\t}", "\tx", "}"]
         stm, exp = [], []
         for i in (0, 1, 2):
-            stm += ["rf%d_%d: MachineInteger := try gd%d(%s) catch E in { E has Hd%d => %s; never };" % (k, i, k, L_(i), k, L_(b)), 'prMI("g%d ", rf%d_%d);' % (k, k, i)]
+            stm += ["rf%dx%d: MachineInteger := try gd%d(%s) catch E in { E has Hd%d => %s; never };" % (k, i, k, L_(i), k, L_(b)), 'prMI("g%d ", rf%dx%d);' % (k, k, i)]
             exp += ["@ lv%d %d" % (k, i), "@ g%d %d" % (k, [a, b, 2 + c][i])]
         return top, stm, exp
     raise ValueError(kind)
